@@ -57,7 +57,8 @@ func (d *Document) PrintDescription(description Description, indent []byte, dept
 		}
 
 		switch content[i] {
-		case runes.LINETERMINATOR:
+		case runes.LINETERMINATOR, runes.CARRIAGERETURN:
+			// a lone carriage return ends a line as well (see splitBytesIntoLines)
 			skipWhitespace = true
 			skippedBytes = 0
 		default:
